@@ -979,7 +979,7 @@ def check_C01(ctx):
         ctx.guard("R", premise_residual, ctx, fac, tabs[2])
     if fac:
         # table index panic sites on the real-card path (needed for the value to be returned at all)
-        discharge_residual_obligations(ctx, fac, "C01.panic-site", max_ranks=5, PR=tabs[2] if tabs else None)
+        discharge_residual_obligations(ctx, fac, "C01.panic-site", max_ranks=5, PR=tabs[2] if tabs else None, domain="cards")
     premise_entry(ctx, "E", sizes=((FIVE, 5),))
     ctx.guard("E.rank", rank_carries_value, ctx, "E", ((FIVE, 5),))
     # validated ranking of five distinct real cards takes the ranking edge: is_valid is true there — the card filter
@@ -1072,7 +1072,39 @@ def entry_totality(ctx, rule, sizes, fac):
             rep.ob(rule, "%s::%s" % (short(path), label), True, nontrivial=False)
 
 
-def discharge_residual_obligations(ctx, fac, rule, max_ranks, PR, extra_env=None):
+_TRIPLES = {}
+
+
+def consistent_triples(domain):
+    """(rank mask, flush flag, prime product) of every five-slot hand of the domain: 'cards' = five distinct real cards
+    (every multiset of five ranks with at most four of a rank; a flush needs five different ranks), 'card-or-blank' =
+    any of the 53 constants in any slot, repeats included (a blank makes the product 0 and rules out the flush)."""
+    if domain in _TRIPLES:
+        return _TRIPLES[domain]
+    from itertools import combinations_with_replacement
+    out = set()
+    for ms in combinations_with_replacement(range(14), 5):
+        blank = 13 in ms
+        if domain == "cards" and (blank or any(ms.count(r) > 4 for r in set(ms))):
+            continue
+        m = 0
+        pr = 1
+        for r in ms:
+            if r < 13:
+                m |= 1 << r
+                pr *= oracle.PRIMES[r]
+            else:
+                pr = 0 * pr
+        if blank:
+            pr = 0
+        out.add((m, 0, pr))
+        if not blank and (domain != "cards" or len(set(ms)) == 5):
+            out.add((m, 1, pr))
+    _TRIPLES[domain] = sorted(out)
+    return _TRIPLES[domain]
+
+
+def discharge_residual_obligations(ctx, fac, rule, max_ranks, PR, extra_env=None, domain="card-or-blank"):
     """Fold the table-index obligations (rewritten over M/F/P) over every rank mask a hand of card-or-blank slots can
     produce (at most `max_ranks` bits set), both flush flags; the search result ranges over its proven range."""
     rep, pdb = ctx.rep, ctx.pdb
@@ -1108,7 +1140,9 @@ def discharge_residual_obligations(ctx, fac, rule, max_ranks, PR, extra_env=None
         if uses_p and not uses_m:
             dom = [(0, 0, pv) for pv in pdom_full]
         elif uses_p:
-            dom = [(m, fl, pv) for m in masks for fl in (0, 1) for pv in pdom_small]
+            # mask and product together: every consistent (mask, flush, product) of the domain — a condition relating
+            # the two is only meaningful on triples that some hand produces
+            dom = list(consistent_triples(domain)) if max_ranks == 5 else [(m, fl, pv) for m in masks for fl in (0, 1) for pv in pdom_small]
         else:
             dom = [(m, fl, 0) for m in masks for fl in (0, 1)]
         unames = sorted(a for a in ats if a.startswith("U"))
@@ -1353,11 +1387,16 @@ def check_C13(ctx):
                 continue
             nb = 0
             bad = None
-            for m in decisive:
-                for f in (0, 1):
-                    if f and bin(m).count("1") != 5:
-                        continue  # five same-suit distinct cards have five ranks
-                    got = cval(ctx.fold(r, {"M": m, "F": f, "P": 0, "$contract:find_in_products": lambda k: C(0, "usize")}))
+            uses_p = "P" in atoms_of(r) or any(x[0] == "call" and x[1].startswith("contract:") for x in walk(r))
+            if uses_p:
+                # the predicate also looks at the prime product: every (mask, flush, product) five real cards produce
+                dom13 = consistent_triples("cards")
+                h13 = fip_handler(pdb.const_val("lookups::PRODUCTS"))
+            else:
+                dom13 = [(m, f, 0) for m in decisive for f in (0, 1) if not (f and bin(m).count("1") != 5)]   # a flush has five ranks
+                h13 = lambda k: C(0, "usize")
+            for (m, f, pv) in dom13:
+                    got = cval(ctx.fold(r, {"M": m, "F": f, "P": pv, "$contract:find_in_products": h13}))
                     if bool(got) != fn(m, f):
                         nb += 1
                         bad = bad or (m, f, got)
@@ -1380,11 +1419,15 @@ def check_C13(ctx):
                         rep.uncertified("C13.no-panic", "panic site %s depends on slot bits outside the rank mask / flush test" % label, "%s line %s" % (pdb.where(o.fn), o.line))
                     continue
                 badp = None
-                for m in decisive:
-                    for f in (0, 1):
-                        if f and bin(m).count("1") != 5:
-                            continue
-                        env = {"M": m, "F": f, "P": 0, "$contract:find_in_products": lambda k: C(0, "usize")}
+                uses_p2 = any("P" in atoms_of(root) or any(x[0] == "call" and x[1].startswith("contract:") for x in walk(root)) for root in [c2] + pc2)
+                if uses_p2:
+                    dom13o = consistent_triples("cards")
+                    h13o = fip_handler(pdb.const_val("lookups::PRODUCTS"))
+                else:
+                    dom13o = [(m, f, 0) for m in decisive for f in (0, 1) if not (f and bin(m).count("1") != 5)]
+                    h13o = lambda k: C(0, "usize")
+                for (m, f, pv) in dom13o:
+                        env = {"M": m, "F": f, "P": pv, "$contract:find_in_products": h13o}
                         try:
                             if all(cval(ctx.fold(c, env)) for c in pc2) and not cval(ctx.fold(c2, env)):
                                 badp = (m, f)
@@ -1392,8 +1435,6 @@ def check_C13(ctx):
                             badp = (m, f)
                         if badp:
                             break
-                    if badp:
-                        break
                 rep.ob("C13.no-panic", label, badp is None, "%s panics (%s, line %s) for rank mask %#06x (ranks %s), flush=%s" % (name, o.kind, o.line, badp[0] if badp else 0, mask_ranks(badp[0]) if badp else "", badp[1] if badp else 0), "%s line %s" % (pdb.where(o.fn), o.line))
         rep.sample({"rule": "C13", "masks": len(decisive), "example": {"mask": "0x1F00", "is_straight": True}})
     ctx.guard("C13.predicates", straight_like)
@@ -2622,7 +2663,7 @@ def check_C04(ctx):
     premise_search(ctx, "S", want_gap=False)
     fac = ctx.guard("F", premise_factor, ctx)
     if fac and tabs:
-        discharge_residual_obligations(ctx, fac, "V.valid-edge-panic-site", max_ranks=5, PR=tabs[2])
+        discharge_residual_obligations(ctx, fac, "V.valid-edge-panic-site", max_ranks=5, PR=tabs[2], domain="cards")
         ctx.guard("V.valid-is-nonzero", premise_residual, ctx, fac, tabs[2], "V.valid-is-nonzero", "nonzero")
     facts = check_bestof(ctx, "V.bestof", {"nonzero-preserving", "result-is-running-best"}, table=None)
 
